@@ -79,6 +79,30 @@ def main():
         except ValueError:
             if M.valid(y, m, d):
                 bad.append(((y, m, d), "refused valid"))
+    # pendulum.parse(text, exact=True) on the period grammar's date shapes and near misses
+    texts = []
+    years = [1000, 1999, 2004, 2009, 2014, 2015, 2016, 2020, 2021, 2026, 9999] + [rnd.randint(1000, 9999) for _ in range(8 if tier == "quick" else 200)]
+    for yy in years:
+        texts.append("%04d" % yy)
+        texts += ["%04d-%02d" % (yy, mm) for mm in range(0, 20)] + ["%04d-%02d" % (yy, 99)]
+        texts += ["%04d-%02d-%02d" % (yy, mm, dd) for mm in (0, 1, 2, 4, 12, 13) for dd in (0, 1, 28, 29, 30, 31, 32, 99)]
+        texts += ["%04d-W%02d" % (yy, ww) for ww in list(range(0, 3)) + list(range(50, 56)) + [99]]
+        texts += ["%04d-W%02d-%d" % (yy, ww, wd) for ww in (0, 1, 26, 52, 53, 54) for wd in range(0, 10)]
+        texts += ["%04d-%d" % (yy, wd) for wd in (0, 1, 7, 8)]
+    import re as _re
+    for t in texts:
+        mw = _re.fullmatch(r"\d{4}-W(\d{2})(?:-(\d))?", t)
+        if mw and (not 1 <= int(mw.group(1)) <= 53 or (mw.group(2) is not None and not 1 <= int(mw.group(2)) <= 7)):
+            continue       # outside the assumed contract: the period grammar's own pattern refuses these before pendulum sees them
+        cases += 1
+        exp = M.parse_iso(t)
+        try:
+            r = pendulum.parse(t, exact=True)
+            got = (r.year, r.month, r.day) if isinstance(r, datetime.date) and not isinstance(r, datetime.datetime) else ("not-a-date", repr(r))
+        except ValueError:
+            got = None
+        if got != exp:
+            bad.append((t, "parse", got, exp))
     # ParserError is a ValueError
     from pendulum.parsing.exceptions import ParserError
     if not issubclass(ParserError, ValueError):
